@@ -346,6 +346,10 @@ def _default_value(facts, e, depth=0):
     return None
 
 
+# C02: "Only what the legacy text format cannot carry is excluded: ... non-positive ids and countdown offset"
+K12_RANGE_EXCLUSIONS = {'CountdownOffset', 'BeatmapID', 'BeatmapSetID'}
+
+
 def check_omitted_is_default(facts, out, sec, dec_ty, key_enum, writer, dtab):
     """K12: a key that is left out when its field has some value X reads back as the decoder's default for that
     field, so X must be that default (`if self.f != X { write }`, `if self.flag { write 1 }`, `if !s.is_empty()`)."""
@@ -401,8 +405,22 @@ def check_omitted_is_default(facts, out, sec, dec_ty, key_enum, writer, dtab):
                     fld, omitted = own_field(a_), _default_value(facts, b_)
                     if omitted is None:
                         omitted = ('unknown',)
+        if fld is None and c.get('k') == 'binary' and c.get('op') in ('Gt', 'Ge', 'Lt', 'Le') and pol:
+            # `if self.f > 0 { write }`: the key is left out for a whole range of values.  The statement excludes exactly
+            # "non-positive ids and countdown offset"; for any other key the range contains values that are not the default
+            for a_, b_ in ((c['a'], c['b']), (c['b'], c['a'])):
+                if own_field(a_):
+                    for key in sorted(set(keys)):
+                        if own_field(a_) in {f[-1] for f in dtab.get(key, set())}:
+                            n += 1
+                            okr = key in K12_RANGE_EXCLUSIONS
+                            out.add('KT-K12', writer, 'omitted-range:' + key, 'src/encode.rs:%s' % x.get('ln', 0), okr,
+                                    '' if okr else ('key `%s` is left out for a whole range of `%s` (`%s 0`-style test): values in that '
+                                                    'range other than the decoder\'s default do not survive encode -> decode'
+                                                    % (key, own_field(a_), c.get('op'))), ordinal=False)
+            return
         if fld is None:
-            return          # conditions on other things are K1b's business; `> 0` forms are the statement's exclusions
+            return          # conditions on other things are K1b's business
         for key in sorted(set(keys)):
             dfields = {f[-1] for f in dtab.get(key, set())}
             if fld not in dfields:
